@@ -656,3 +656,29 @@ package iscp
 //@   props C04
 //@   ensures len(d.resultAckBuffer) == old(len(d.resultAckBuffer)) + 1 && d.resultAckBuffer[old(len(d.resultAckBuffer))] == res
 //@   ensures forall(i, int, imp(0 <= i && i < old(len(d.resultAckBuffer)), d.resultAckBuffer[i] == old(d.resultAckBuffer[i])))
+
+// ---------------------------------------------------------------- C04 / C05 / C10: closing a downstream
+// The close request names this stream and goes out only after the stream was moved to Draining
+// and - unless it was resuming - the final ack flush (or one of the two contexts) was awaited;
+// whatever path is taken, the stream's context is cancelled before closeWithError returns.
+//@ func (*Downstream).closeWithError
+//@   props C04 C05 C10
+//@   ghostvar draining bool = false
+//@   ghostvar awaited bool = false
+//@   ghostvar cancelled bool = false
+//@   after call streamState).Swap: draining = (arg1 == streamStatusDraining)
+//@   after recv finalAckFlushed: awaited = true
+//@   after recv ctx.Done: awaited = true
+//@   after call dynamic field cancel: cancelled = true
+//@   assert call SendDownstreamCloseRequest: draining && (awaited || beforeStatus == streamStatusResuming) && arg2 != nil && arg2.StreamID == d.ID
+//@   ensures cancelled
+
+// ---------------------------------------------------------------- C03: metadata
+// A metadata message taken from the stream's channel is acknowledged under its own request id
+// and handed to the caller unchanged (or the ack failed and an error is returned).
+//@ func (*Downstream).ReadMetadata
+//@   props C03
+//@   ghostvar got *message.DownstreamMetadata = nil
+//@   after recv metadataCh: got = v
+//@   assert call SendDownstreamMetadataAck: got != nil && arg2 != nil && arg2.RequestID == got.RequestID && arg2.ResultCode == message.ResultCodeSucceeded
+//@   ensures imp(result1 == nil, result0 != nil && got != nil && result0.SourceNodeID == got.SourceNodeID && result0.Metadata == got.Metadata)
